@@ -230,7 +230,9 @@ struct Inv {
 	std::vector<std::string> fixed;	/* argv without the tool name and without the values */
 	int mode = 0;			/* 0 values are arguments, 1 stdin lines, 2 stdin text lines in sed mode */
 	int kind = K_DATE;
-	std::vector<size_t> ifs;	/* indices into infmts; empty = default parser */
+	std::vector<std::string> ifmts;	/* the -i formats values are drawn from; empty = default parser */
+	size_t pos_at = 0;		/* index into fixed where the operands (durations, rounding targets) begin */
+	bool many_if = false, empty_mode = false;
 	bool full = true;		/* every value determines all fields */
 	bool has_base = false;
 	bool zone = false;
@@ -254,14 +256,12 @@ static inline std::string inv_value(Rng &r, const Inv &iv)
 		static const char *junk[] = {"foo", "", "2012-13-45", "99", "2012-02-30", "24:00:00", "T", "2012-01-01T", "0000-00-00", " ", "1e9", "31/02/2012", "Feb 30, 2012"};
 		return junk[r.below(sizeof(junk) / sizeof(*junk))];
 	}
-	if (iv.ifs.empty())
+	if (iv.ifmts.empty())
 		return default_value(c, iv.kind, r);
-	const InFmt &f = infmts[iv.ifs[r.below(iv.ifs.size())]];
-	if (!*f.fmt)
-		return default_value(c, f.kind, r);
-	if (strcmp(f.fmt, "%s") == 0 && c.y < 1970)
+	const std::string &f = iv.ifmts[r.below(iv.ifmts.size())];
+	if (f == "%s" && c.y < 1970)
 		c.y += 100;
-	return fmt_value(f.fmt, c);
+	return fmt_value(f, c);
 }
 
 static inline std::string text_around(Rng &r, const std::string &v)
@@ -271,54 +271,140 @@ static inline std::string text_around(Rng &r, const std::string &v)
 	return std::string(pre[r.below(9)]) + v + post[r.below(9)];
 }
 
-/* draw an invocation; TOOLS restricts the tool (NULL: any line-independent one);
- * want_full: only inputs that determine every field, or --base (C20) */
-static inline Inv rand_inv(Rng &r, const char *only_tool, bool want_full, bool allow_sed)
+/* overlapping input formats: a value of one member is accepted (wholly or as a prefix) by another, so
+ * the order in which the tool tries them matters and must not depend on earlier lines */
+static const char *const fam_dmy[] = {"%d/%m/%Y", "%m/%d/%Y"};
+static const char *const fam_iso[] = {"%F %T", "%F", "%F %H:%M"};
+static const char *const fam_cmp[] = {"%Y%m%d", "%Y%m%d%H%M%S", "%Y%m%dT%H%M%S"};
+static const char *const fam_dot[] = {"%d.%m.%Y", "%d.%m.%y", "%m.%d.%Y"};
+static const char *const fam_nam[] = {"%d %b %Y", "%d %B %Y", "%d %b %Y %H:%M:%S"};
+struct Fam {
+	const char *const *f;
+	size_t n;
+	int kind;
+};
+static const Fam fams[] = {{fam_dmy, 2, K_DATE}, {fam_iso, 3, K_DT}, {fam_cmp, 3, K_DT}, {fam_dot, 3, K_DATE}, {fam_nam, 3, K_DATE}};
+
+/* --base in every spelling the tools take */
+static inline std::string rand_base(Rng &r)
+{
+	Civ b = rand_civ(r);
+	switch (r.below(8)) {
+	case 0:
+	case 1:
+		return fmt_value("%F", b);
+	case 2:
+	case 3:
+		return fmt_value("%FT%T", b);
+	case 4:
+		return "@" + fmt_value("%s", b.y < 1970 ? (b.y += 100, b) : b);
+	case 5:
+		return fmt_value("%G-W%V-0%u", b);
+	case 6:
+		return fmt_value("%Y-%j", b);
+	default:
+		return fmt_value("%F %T", b);
+	}
+}
+
+struct GenOpt {
+	const char *tool = nullptr;	/* NULL: any of the line-independent tools */
+	bool want_full = false;		/* C20: inputs that determine every field, or --base */
+	int force_mode = -1;		/* 0 args, 1 stdin, 2 sed */
+	size_t max_if = 3;		/* at most this many -i formats (0: default parser only) */
+	bool allow_sed = true;
+	bool allow_many_if = true;	/* now and then 8..40 -i formats (needle tables are sized from the count) */
+};
+
+static inline Inv rand_inv(Rng &r, const GenOpt &go)
 {
 	Inv iv;
 	static const char *tools[] = {"dconv", "dconv", "dadd", "dround", "ddiff", "dgrep"};
-	iv.tool = only_tool ? only_tool : tools[r.below(6)];
+	iv.tool = go.tool ? go.tool : tools[r.below(6)];
 	const std::string &t = iv.tool;
 	/* kind and input formats */
 	unsigned kk = (unsigned)r.below(100);
 	iv.kind = kk < 45 ? K_DATE : kk < 92 ? K_DT : K_TIME;
-	size_t nif = r.chance(2, 5) ? 0 : (size_t)r.range(1, 3);
-	bool under = !want_full ? r.chance(1, 8) : r.chance(1, 5);
-	for (size_t i = 0; i < nif; i++) {
-		for (int tries = 0; tries < 40; tries++) {
-			size_t x = under ? n_full_infmts + r.below(n_infmts - n_full_infmts) : r.below(n_full_infmts);
-			if (infmts[x].kind != iv.kind && !(tries > 20))
-				continue;
-			if (!*infmts[x].fmt)
-				continue;
-			/* dadd and dround take their first operand for a date if it parses as one: a bare number
-			 * format would swallow the duration or rounding target and the tool would not read stdin */
-			if ((t == "dadd" || t == "dround") && (!strcmp(infmts[x].fmt, "%s") || !strcmp(infmts[x].fmt, "%d")))
-				continue;
-			iv.ifs.push_back(x);
-			if (!infmts[x].full)
+	size_t nif = go.max_if == 0 || r.chance(2, 5) ? 0 : (size_t)r.range(1, (int64_t)go.max_if);
+	bool under = !go.want_full ? r.chance(1, 8) : r.chance(1, 5);
+	std::vector<std::string> ifmts;
+	auto loose = [&](const char *f) {
+		/* dadd and dround take their first operand for a date if it parses as one: a bare number format
+		 * would swallow the duration or rounding target and the tool would not read stdin at all */
+		return (t == "dadd" || t == "dround") && (!strcmp(f, "%s") || !strcmp(f, "%d"));
+	};
+	if (nif >= 2 && go.max_if >= 2 && r.chance(1, 3)) {
+		/* an overlapping family, in a seeded order */
+		const Fam &f = fams[r.below(sizeof(fams) / sizeof(*fams))];
+		std::vector<size_t> order;
+		for (size_t i = 0; i < f.n; i++)
+			order.push_back(i);
+		for (size_t i = f.n; i > 1; i--)
+			std::swap(order[i - 1], order[r.below(i)]);
+		size_t take = (size_t)r.range(2, (int64_t)f.n);
+		for (size_t i = 0; i < take; i++)
+			ifmts.push_back(f.f[order[i]]);
+		iv.kind = f.kind;
+		for (auto &x : ifmts)
+			if (x.find("%y") != std::string::npos || x == "%F %H:%M")
 				iv.full = false;
-			break;
+	} else {
+		for (size_t i = 0; i < nif; i++) {
+			for (int tries = 0; tries < 40; tries++) {
+				size_t x = under ? n_full_infmts + r.below(n_infmts - n_full_infmts) : r.below(n_full_infmts);
+				if (infmts[x].kind != iv.kind && !(tries > 20))
+					continue;
+				if (!*infmts[x].fmt || loose(infmts[x].fmt))
+					continue;
+				if (i == 0)
+					iv.kind = infmts[x].kind;
+				ifmts.push_back(infmts[x].fmt);
+				if (!infmts[x].full)
+					iv.full = false;
+				break;
+			}
 		}
 	}
-	if (!iv.ifs.empty())
-		iv.kind = infmts[iv.ifs[0]].kind;
-	for (size_t x : iv.ifs) {
-		iv.fixed.push_back("-i");
-		iv.fixed.push_back(infmts[x].fmt);
+	/* many formats: the tools size their needle tables from the number of -i options */
+	if (go.allow_many_if && !ifmts.empty() && r.chance(1, 10)) {
+		static const size_t counts[] = {7, 8, 9, 15, 16, 17, 23, 24, 25, 31, 32, 33, 40};
+		size_t want = counts[r.below(sizeof(counts) / sizeof(*counts))];
+		/* every filler determines a complete date, so that a stray match cannot make the result depend on the clock */
+		static const char *filler[] = {"q%Yq%mq%d", "%Y_%m_%d", "%d~%m~%Y", "<%F>", "#%j#%Y", "%Y:%m:%d", "%d|%m|%Y", "%m;%d;%Y", "%Y=%j", "%Yx%mx%d",
+					       "%b/%d/%Y", "%B %Y %d", "%G w%V %u", "%Y+%m+%d", "%d^%m^%Y", "{%F}", "%Y %d %b", "%d*%m*%Y", "%Y&%j", "%m'%d'%Y"};
+		size_t nfill = want > ifmts.size() ? want - ifmts.size() : 0;
+		size_t at = r.below(nfill + 1);	/* where the real formats sit among the fillers */
+		std::vector<std::string> all;
+		for (size_t k = 0; k < nfill; k++) {
+			if (k == at)
+				all.insert(all.end(), ifmts.begin(), ifmts.end());
+			all.push_back(std::string(filler[k % 20]) + (k >= 20 ? std::string(1, (char)('a' + k / 20)) : ""));
+		}
+		if (at >= nfill)
+			all.insert(all.end(), ifmts.begin(), ifmts.end());
+		for (auto &x : all) {
+			iv.fixed.push_back("-i");
+			iv.fixed.push_back(x);
+		}
+		iv.many_if = true;
+	} else {
+		for (auto &x : ifmts) {
+			iv.fixed.push_back("-i");
+			iv.fixed.push_back(x);
+		}
 	}
+	iv.ifmts = ifmts;
 	/* a bare time needs a date from somewhere as soon as zones or epoch output come in */
 	bool timeonly = iv.kind == K_TIME;
-	if (!iv.full || (want_full && timeonly && r.chance(1, 2))) {
-		Civ b = rand_civ(r);
-		iv.fixed.push_back("--base");
-		iv.fixed.push_back(r.chance(1, 2) ? fmt_value("%F", b) : fmt_value("%FT%T", b));
+	if (!iv.full || (go.want_full && timeonly && r.chance(1, 2)) || r.chance(1, 16)) {
+		iv.fixed.push_back(r.chance(1, 2) ? "--base" : "-b");
+		iv.fixed.push_back(rand_base(r));
 		iv.has_base = true;
 	}
 	/* zones */
 	bool canzone = t != "ddiff" && t != "dgrep";
 	unsigned zk = (unsigned)r.below(100);
-	if ((!timeonly || iv.has_base || !want_full) && zk < 40) {
+	if ((!timeonly || iv.has_base || !go.want_full) && zk < 40) {
 		const char *z1 = inv_zones[r.below(n_inv_zones)], *z2 = inv_zones[r.below(n_inv_zones)];
 		if (zk < 18 && canzone) {
 			iv.fixed.push_back(r.chance(1, 2) ? "--zone" : "-z");
@@ -347,7 +433,7 @@ static inline Inv rand_inv(Rng &r, const char *only_tool, bool want_full, bool a
 			iv.fixed.push_back(r.chance(1, 2) ? "-f" : "--format");
 			std::string of = rand_ofmt(r, iv.kind, iv.zone);
 			/* epoch or zone output of a bare time borrows the date: only with --base */
-			if (timeonly && !iv.has_base && want_full) {
+			if (timeonly && !iv.has_base && go.want_full) {
 				size_t q;
 				while ((q = of.find("%s")) != std::string::npos)
 					of.replace(q, 2, "%S");
@@ -364,15 +450,20 @@ static inline Inv rand_inv(Rng &r, const char *only_tool, bool want_full, bool a
 		iv.fixed.push_back("-e");
 	/* tool specific fixed operands and the mode */
 	unsigned mk = (unsigned)r.below(100);
+	auto pick_mode = [&](int dflt) { return go.force_mode >= 0 ? go.force_mode : dflt == 2 && !go.allow_sed ? 1 : dflt; };
 	if (t == "dconv") {
-		iv.mode = mk < 35 ? 0 : mk < 75 || !allow_sed ? 1 : 2;
+		iv.mode = pick_mode(mk < 35 ? 0 : mk < 75 ? 1 : 2);
+		iv.pos_at = iv.fixed.size();
 	} else if (t == "dadd") {
+		iv.mode = pick_mode(mk < 65 ? 1 : 2);
+		if (iv.mode == 0)
+			iv.mode = 1;
+		iv.pos_at = iv.fixed.size();
 		size_t nd = (size_t)r.range(1, 3);
 		for (size_t i = 0; i < nd; i++) {
 			bool td = iv.kind == K_TIME || (iv.kind == K_DT && r.chance(1, 2));
 			iv.fixed.push_back(td ? durs_time[r.below(sizeof(durs_time) / sizeof(*durs_time))] : durs_date[r.below(sizeof(durs_date) / sizeof(*durs_date))]);
 		}
-		iv.mode = mk < 65 || !allow_sed ? 1 : 2;
 	} else if (t == "dround") {
 		if (r.chance(1, 5))
 			iv.fixed.push_back(r.chance(1, 2) ? "-n" : "--next");
@@ -381,29 +472,31 @@ static inline Inv rand_inv(Rng &r, const char *only_tool, bool want_full, bool a
 		std::vector<std::string> specs;
 		for (size_t i = 0; i < nd; i++) {
 			bool td = iv.kind == K_TIME || (iv.kind == K_DT && r.chance(1, 2));
-			std::string s = td ? rnd_time[r.below(sizeof(rnd_time) / sizeof(*rnd_time))] : rnd_date[r.below(sizeof(rnd_date) / sizeof(*rnd_date))];
-			if (s[0] == '-')
+			std::string sp = td ? rnd_time[r.below(sizeof(rnd_time) / sizeof(*rnd_time))] : rnd_date[r.below(sizeof(rnd_date) / sizeof(*rnd_date))];
+			if (sp[0] == '-')
 				dashed = true;
-			specs.push_back(s);
+			specs.push_back(sp);
 		}
-		iv.mode = mk < 65 || !allow_sed ? 1 : 2;
-		if (iv.mode == 2)
-			iv.fixed.push_back("-S");
+		iv.mode = pick_mode(mk < 65 ? 1 : 2);
+		if (iv.mode == 0)
+			iv.mode = 1;
 		if (dashed)
 			iv.fixed.push_back("--");
-		for (auto &s : specs)
-			iv.fixed.push_back(s);
-		if (iv.mode == 2)
-			iv.textlines = true;
-		return iv;
+		iv.pos_at = iv.fixed.size();
+		for (auto &sp : specs)
+			iv.fixed.push_back(sp);
 	} else if (t == "ddiff") {
 		if (r.chance(3, 4)) {
 			iv.fixed.push_back("-f");
 			iv.fixed.push_back(iv.kind == K_DATE ? ddiff_ofmts_date[r.below(sizeof(ddiff_ofmts_date) / sizeof(*ddiff_ofmts_date))]
 							      : ddiff_ofmts_dt[r.below(sizeof(ddiff_ofmts_dt) / sizeof(*ddiff_ofmts_dt))]);
 		}
-		iv.fixed.push_back(inv_value(r, iv));	/* the reference */
-		iv.mode = mk < 50 ? 0 : 1;
+		std::string ref = inv_value(r, iv);
+		if (ref.empty() || ref[0] == '-')
+			ref = fmt_value("%F", rand_civ(r));
+		iv.fixed.push_back(ref);	/* the reference */
+		iv.mode = go.force_mode >= 0 && go.force_mode < 2 ? go.force_mode : mk < 50 ? 0 : 1;
+		iv.pos_at = iv.fixed.size();
 	} else if (t == "dgrep") {
 		static const char *ops[] = {"<", "<=", ">", ">=", "=", "!=", "<>"};
 		if (r.chance(1, 4))
@@ -432,15 +525,34 @@ static inline Inv rand_inv(Rng &r, const char *only_tool, bool want_full, bool a
 			iv.fixed.push_back(e);
 		}
 		iv.mode = 1;
+		iv.pos_at = iv.fixed.size();
 		iv.textlines = true;
 	}
 	if (iv.mode == 2) {
 		iv.fixed.insert(iv.fixed.begin(), "-S");
-		if (r.chance(1, 6))
+		iv.pos_at++;
+		if (r.chance(1, 6)) {
 			iv.fixed.insert(iv.fixed.begin() + 1, "-E");
+			iv.pos_at++;
+			iv.empty_mode = true;
+		}
 		iv.textlines = true;
+	} else if (iv.mode == 1 && t != "dgrep" && r.chance(1, 5)) {
+		/* empty mode on plain stdin: unparsable lines come out as empty lines, a separate reader path */
+		iv.fixed.insert(iv.fixed.begin(), r.chance(1, 2) ? "-E" : "--empty-mode");
+		iv.pos_at++;
+		iv.empty_mode = true;
 	}
 	return iv;
+}
+
+static inline Inv rand_inv(Rng &r, const char *only_tool, bool want_full, bool allow_sed)
+{
+	GenOpt go;
+	go.tool = only_tool;
+	go.want_full = want_full;
+	go.allow_sed = allow_sed;
+	return rand_inv(r, go);
 }
 
 static inline std::vector<std::string> inv_argv(const Inv &iv)
